@@ -42,50 +42,64 @@ def run(ck: Check):
     ck.lean_obligations(mods)
     ck.build_driver(["Lex", "Parse", "Resolve", "Pipe"] + (["Render"] if have_render() else []))
     quick = ck.tier == "quick"
-    # --- lexer
+    render = have_render()
+    renderlib = importlib.import_module("renderlib") if render else None
+    # Every stage runs its streams first; only then is a failure attributed and searched, so that a broken
+    # obligation of one stage cannot hide a concrete failing input that another stage's stream produces.
     lexlib.lex_streams(ck, ck.tier, only=["grammar", "trunc-all-prefixes", "trunc-windows", "deep"])
-    if ck.is_broken():
-        lexlib.lex_search(ck, "C07")
-        return ck.finish()
-    # --- parser (incl. totality guard: a hang or a death is bisected to one input)
-    parselib.parse_streams(ck, ck.tier)
-    if ck.is_broken():
-        parselib.parse_search(ck)
-        return ck.finish()
-    # --- resolver: must answer (end=ok) on every program, valid or not
+    parselib.parse_streams(ck, ck.tier)   # incl. totality guard: a hang or a death is bisected to one input
     out = resolvelib.resolve_streams(ck, ck.tier, sizes={"valid": 600, "viol": 900, "mixed": 900} if quick else None)
     crashed = [r for r, a in zip(out["requests"], out["resolve"]["impl_lines"]) if not a.rstrip().endswith("end=ok")]
-    # C09-specific verdicts (spec / WF) are not C07's subject: keep only crashes and model-vs-impl disagreements
     ck.count("resolver_cases", len(out["requests"]))
     ck.count("resolver_crashes", len(crashed))
+    # C09-specific verdicts (spec / WF) are not C07's subject: keep only crashes and model-vs-impl disagreements
+    ck.oracle_fails[:] = [f for f in ck.oracle_fails if f.get("family") != "resolve"]
+    if render:
+        renderlib.render_streams(ck, ck.tier)
+        renderlib.render_mem_oracle(ck)
+    pipelib.pipe_stream(ck, "mutants", 1500 if quick else 40000)
+    if ck.tier == "thorough":
+        ck.leanchecker(mods)
     if crashed:
         r = min(crashed, key=len)
         ck.report_violation({"kind": "impl-vs-oracle", "family": "resolve", "what": "the static checker did not return "
                              "(panic / abort) on this program", "requests": [r], "program": resolvelib.src_of(r)})
         return ck.finish()
-    ck.oracle_fails[:] = [f for f in ck.oracle_fails if f.get("family") != "resolve"]
-    if any(d["family"] == "resolve" for d in ck.disagreements) or ck.broken:
-        resolvelib.resolve_search(ck, out)
-        return ck.finish()
-    # --- renderer
-    if have_render():
-        renderlib = importlib.import_module("renderlib")
-        renderlib.render_streams(ck, ck.tier)
-        renderlib.render_mem_oracle(ck)
-        if ck.is_broken():
-            renderlib.render_search(ck)
-            return ck.finish()
-    # --- composed front end on mutants (gate: runs only what produced no error)
-    pipelib.pipe_stream(ck, "mutants", 1500 if quick else 40000)
-    if ck.tier == "thorough":
-        ck.leanchecker(mods)
     if ck.is_broken():
+        dispatch(ck, out, renderlib)
+    return ck.finish()
+
+
+def family_of_broken(b):
+    text = " ".join(str(v) for v in b.values())
+    for key, fam in (("Render", "render"), ("render", "render"), ("Lexical", "lex"), ("C07Lex", "lex"), ("Lex", "lex"),
+                     ("Pratt", "parse"), ("C07Parse", "parse"), ("Parse", "parse"), ("TypeRules", "resolve"),
+                     ("Builtins", "resolve"), ("Resolve", "resolve")):
+        if key in text:
+            return fam
+    return None
+
+
+def dispatch(ck, out, renderlib):
+    """Attribute what is broken to a stage and let that stage's search look for / shrink the failing input.
+    Concrete failures (oracle, then disagreements) take precedence over broken obligations."""
+    fams = [f.get("family") for f in ck.oracle_fails] + [d.get("family") for d in ck.disagreements]
+    fams += [family_of_broken(b) for b in ck.broken]
+    fam = next((f for f in fams if f), None)
+    if fam == "lex":
+        lexlib.lex_search(ck, "C07")
+    elif fam == "parse":
+        parselib.parse_search(ck)
+    elif fam == "resolve":
+        resolvelib.resolve_search(ck, out)
+    elif fam == "render" and renderlib is not None:
+        renderlib.render_search(ck)
+    else:
         rep = pipelib.report(ck, "composed front-end model and real front end disagree")
         if rep is not None:
             ck.report_violation(rep, no_input_found=(rep["kind"] != "impl-vs-oracle"))
         else:
             ck.report_violation({"kind": "tie-broken", "broken": ck.broken[:10], "requests": []}, no_input_found=True)
-    return ck.finish()
 
 
 def replay(ck, data):
